@@ -1,6 +1,6 @@
 (* C14Check.v — judges the parsed-back output of the REAL built-in reporters. *)
 From CV Require Import Model.Base Model.Events Model.Contract Model.Normalize Model.Stats Model.StatsSpec
-  Model.Reporters Model.ReportersSpec Check.Verdict.
+  Model.Reporters Model.ReportersSpec Model.ReportersSpec2 Check.Verdict.
 From CV Require Proofs.ReportersP2 Proofs.ReportersP3 Proofs.ReportersP4.
 
 Record rcase14 := mk_rcase14 {
@@ -30,8 +30,9 @@ Definition c14_ok (c : rcase14) : bool :=
   match r_writer c with
   | 0 => c14_libtest_ok es (r_report c)
   | 1 => c14_json_ok es (r_report c)
-  | 2 => c14_junit_ok es (r_report c)
-  | _ => c14_basic_ok es (r_report c)
+  (* terminal and JUnit: also UNDER WHICH feature / rule / testcase every fact stands (ReportersSpec2) *)
+  | 2 => c14_junit_ok es (r_report c) && c14_junit_attr_ok es (r_report c)
+  | _ => c14_basic_ok es (r_report c) && c14_basic_attr_ok es (r_report c)
   end.
 
 Definition pathless_with_events (c : rcase14) (only_scen : bool) : bool :=
